@@ -619,6 +619,12 @@ def splitOrders (depth : Int) (cur : Str) : Str → List Str
     else if c = ',' ∧ depth = 0 then cur :: splitOrders depth [] rest
     else splitOrders depth (cur ++ [c]) rest
 
+/-- a `key=value` part split at its first `=` (parts without one are skipped) -/
+def kvOf (p : Str) : Option (Str × Str) :=
+  match idxOf '=' p with
+  | some i => some (p.take i, p.drop (i + 1))
+  | none => none
+
 /-- `PriceLevel::from_str`: price and the orders in text order (aggregates in the text are ignored) -/
 def parseLevel (s : Str) : Res (Nat × List Order) :=
   let pre := lit "PriceLevel:"
@@ -641,10 +647,7 @@ where
     -- rest (a later `orders=…` part overrides the extracted section)
     let parts : List (Str × Str) :=
       (match orders with | some os => [(lit "orders", os)] | none => []) ++
-      ((splitOn ';' remaining).filter (fun p => !p.isEmpty)).filterMap (fun p =>
-        match idxOf '=' p with
-        | some i => some (p.take i, p.drop (i + 1))
-        | none => none)
+      ((splitOn ';' remaining).filter (fun p => !p.isEmpty)).filterMap kvOf
     match (parts.reverse.find? (fun kv => kv.1 = lit "price")).bind (fun kv => parseU64 kv.2) with
     | none => .error .parseError
     | some price =>
